@@ -155,7 +155,54 @@ let ra_search (o : ords) =
         end) [1; 2; 3]) [1; 2; 3]) [1; 2];
   if !found = None then print_string "RACLEAN\n"
 
+(* ---- the same for the view model of the safely overflowing queue (model/OverflowQueueRA.v):
+        used-race or conservation failure under the given table of seven orderings ---- *)
+let oqra_search (o : qords) =
+  let found = ref None in
+  let seen = Hashtbl.create 100000 in
+  let rec go c sched =
+    if !found <> None then () else begin
+      let (g, ls) = c in
+      let key = Marshal.to_string (oqra_set_oracle g [], ls O, ls (S O)) [] in
+      if not (Hashtbl.mem seen key) then begin
+        Hashtbl.add seen key ();
+        List.iter (fun t ->
+          List.iter (fun k ->
+            if !found = None then begin
+              let c0 = (oqra_set_oracle g [n_of_int k], ls) in
+              match oqra_step1 o (nat_of_int t) c0 with
+              | None -> ()
+              | Some (c', _) ->
+                let consumed = (oqra_oracle (fst c') = []) in
+                if k = 0 || consumed then begin
+                  let sched' = (t, if consumed then k else 0) :: sched in
+                  if oqra_race_used (fst c') then found := Some ("used-race", List.rev sched')
+                  else if not (oqra_conserving (fst c')) then found := Some ("conservation", List.rev sched')
+                  else go c' sched'
+                end
+            end) [0; 1000]) [0; 1]
+      end
+    end in
+  List.iter (fun cap ->
+    List.iter (fun npush ->
+      List.iter (fun npop ->
+        if !found = None then begin
+          Hashtbl.reset seen;
+          let pushes = List.init npush (fun i -> n_of_int (7 + i)) in
+          go (oqra_init (n_of_int cap) [] pushes (nat_of_int npop)) [];
+          (match !found with
+           | Some (what, sched) ->
+             Printf.printf "OQRAWITNESS %s cap=%d pushes=%d pops=%d schedule=%s\n" what cap npush npop
+               (String.concat "," (List.map (fun (t, k) -> Printf.sprintf "%d:%d" t k) sched))
+           | None -> ())
+        end) [1; 2]) [1; 2; 3; 4]) [1; 2];
+  if !found = None then print_string "OQRACLEAN\n"
+
 let () =
+  if Array.length Sys.argv > 1 && Sys.argv.(1) = "oqra" then
+    oqra_search (oqra_mk_ords (ord_of_string Sys.argv.(2)) (ord_of_string Sys.argv.(3)) (ord_of_string Sys.argv.(4))
+                   (ord_of_string Sys.argv.(5)) (ord_of_string Sys.argv.(6)) (ord_of_string Sys.argv.(7)) (ord_of_string Sys.argv.(8)))
+  else
   if Array.length Sys.argv > 1 && Sys.argv.(1) = "ra" then
     ra_search (ra_mk_ords (ord_of_string Sys.argv.(2)) (ord_of_string Sys.argv.(3)) (ord_of_string Sys.argv.(4))
                  (ord_of_string Sys.argv.(5)) (ord_of_string Sys.argv.(6)) (ord_of_string Sys.argv.(7)))
